@@ -111,16 +111,22 @@ impl Target {
     /// wait until the threads that block in a system call are back in it (after a stop they restart the
     /// call; a dump taken before they ran again sees them at the `syscall` instruction instead of after it)
     pub fn settle(&self) {
-        for _ in 0..200 {
-            let mut all = true;
+        // waits until every thread is back inside its (restarted) system call: under load that can take a while for a target with
+        // many threads, so the wait goes on for as long as the set of threads that are not there yet keeps shrinking or changing;
+        // threads that another tracer holds never get there - once nothing has changed for ~100 ms the wait ends
+        let mut last: Vec<String> = Vec::new(); let mut unchanged = 0;
+        for it in 0..6000 {
+            let mut pending: Vec<String> = Vec::new();
             if let Ok(rd) = std::fs::read_dir(format!("/proc/{}/task", self.pid)) {
                 for e in rd.flatten() {
                     let sc = std::fs::read_to_string(e.path().join("syscall")).unwrap_or_default();
                     // "running" = never blocks (spinners, null-SP helpers); "-1 ..." = stopped outside a system call
-                    if sc.starts_with("-1") { all = false; }
+                    if sc.starts_with("-1") { pending.push(e.file_name().to_string_lossy().into_owned()); }
                 }
             }
-            if all { break; }
+            if pending.is_empty() { break; }
+            if pending == last { unchanged += 1; } else { unchanged = 0; last = pending; }
+            if it >= 200 && unchanged >= 300 { break; }
             std::thread::sleep(std::time::Duration::from_micros(300));
         }
         std::thread::sleep(std::time::Duration::from_micros(500));
